@@ -214,6 +214,33 @@ def work(item):
     if r["exc"] is not None:
         bad(f"step raised {type(r['exc']).__name__}: {str(r['exc'])[:200]}")
         return acc.done()
+    if pass_engine and explicit == "numpy" and selected in ("numpy", "SX"):
+        # element-level API: every element initialised with an explicit engine A, then B selected, then every element
+        # stepped WITHOUT an engine -> the selected engine B computes everything, A nothing
+        from sym_metanet import engines as _E
+        from sym_metanet.engines.numpy import Engine as _NE
+        la, lb = [], []
+        A_, B_ = make_recorder(_NE("rand"), la), make_recorder(_NE("rand"), lb)
+        try:
+            vals = numrun.exact_params(topo, 2)
+            b = T_.build(topo, vals)
+            for el in b.net.elements:
+                el.init_vars(engine=A_)
+            _E.use(B_)
+            del la[:]
+            kw = T_.model_kwargs(topo, vals)
+            import numpy as _np
+            with _np.errstate(all="ignore"):
+                for o in b.net.origins:
+                    o.step(net=b.net, **kw)
+                for _, _, l in b.net.links:
+                    l.step(net=b.net, **kw)
+            if la:
+                bad(f"element-level steps without an engine used the engine of an earlier explicit initialisation instead of the selected one: {sorted(set(la))[:5]}")
+            if not lb:
+                bad("element-level steps without an engine did not use the selected engine")
+        except Exception as e:  # noqa
+            bad(f"element-level init/step sequence raised {type(e).__name__}: {str(e)[:160]}")
     if pass_engine:
         # a step with an explicit engine that FAILS (a model parameter is missing) must leave the selection untouched too
         from sym_metanet import engines as _E
